@@ -400,7 +400,12 @@ Definition handle_parse_node (s : bstate) (current_root_jump : nat) (stack : lis
       end
   | D_NestedExpression =>
       match n_right pn with
-      | None => Ok (push_instr s (I_Put, OExpr current_root_jump) (Some ni), stack)
+      | None =>
+        let c := match nth_error (bnodes s) ni with
+                 | Some (Some b) => b_containing b
+                 | _ => current_root_jump
+                 end in
+        Ok (push_instr s (I_Put, OExpr c) (Some ni), stack)
       | Some r =>
         let jump_index := jump_len s in
         let s1 := push_jump s 0 in
